@@ -126,10 +126,28 @@ def iteration_model(eng, it, fr):
     if isinstance(it, V) and it.ty[0] == 'list':
         if it.ty[1] == ANY:
             return z3.IntVal(0), (lambda i: VNONE), None
-        return z3.Length(it.t), (lambda i: V(it.ty[1], it.t[i])), None
+        fr.ghost['iter_seq'] = it
+
+        def at(i):
+            item = V(it.ty[1], it.t[i])
+            eng.B.on_elem_read(eng, it.t, i, item)
+            return item
+        return z3.Length(it.t), at, None
     if isinstance(it, V) and it.ty[0] == 'gen':
         items, after = eng.drain_gen(it, fr)
+        fr.ghost['iter_seq'] = items
         return z3.Length(items.t), (lambda i: V(items.ty[1], items.t[i])), after
+    if isinstance(it, PyObj) and it.kind == 'iter_unpack':
+        fmt, data = it.payload
+        from .builtins import calcsize, unpack_at
+        size = calcsize(fmt)
+        ln = z3.Length(data.t)
+        eng.prove_internal('iter_unpack buffer length multiple of %d' % size, ln % size == 0, 'struct.error')
+
+        def at(i):
+            vals, _ = unpack_at(eng, fmt, data.t, i * size)
+            return T.mk_tuple(vals)
+        return ln / size, at, None
     if isinstance(it, PyObj) and it.kind == 'enumerate':
         n, at, after = iteration_model(eng, it.payload[0], fr)
         return n, (lambda i: T.mk_tuple([V(INT, i), at(i)])), after
